@@ -1033,3 +1033,85 @@ func TestC06CloseBesideReader(t *testing.T) {
 		}
 	}
 }
+
+// TestC06CloseQueued: the application's Close is called while a Write of the same connection is held
+// up by the transport, so its Close frame has to queue; the peer's own Close frame arrives meanwhile
+// (before or after the call) and is taken in by a reader. When the transport moves again one Close
+// frame must go out: the one the application asked for, or the echo of the peer's - "Close emits a Close
+// frame with exactly that code and reason", "a received Close frame is echoed with the same code";
+// which of the two wins the frame lock is up to the scheduler, that one of them is sent is not.
+func TestC06CloseQueued(t *testing.T) {
+	rec := evid.For("C06")
+	type cqCase struct {
+		Client   bool
+		PeerCode int
+		Order    string
+		Hold     time.Duration
+	}
+	for _, client := range []bool{false, true} {
+		for _, peerCode := range []int{1000, 4002} {
+			for _, order := range []string{"close-first", "peer-first"} {
+				for _, hold := range []time.Duration{time.Millisecond, time.Second, 3 * time.Second} {
+					c := cqCase{client, peerCode, order, hold}
+					var msg string
+					synctest.Test(t, func(t *testing.T) {
+						e := newEnv(t)
+						defer e.Teardown()
+						lc, err := e.open(connSpec{Client: client})
+						if err != nil {
+							msg = "handshake: " + err.Error()
+							return
+						}
+						p := lc.Peer
+						p.start(e)
+						rd := e.Call(func() { lc.C.Read(context.Background()) })
+						lc.End.SetInBudget(0)
+						wd := e.Call(func() { lc.C.Write(context.Background(), websocket.MessageBinary, make([]byte, 9000)) })
+						synctest.Wait() // the Write is stuck in the transport, holding the frame lock
+						var cd <-chan struct{}
+						closeIt := func() {
+							cd = e.Call(func() { lc.C.Close(websocket.StatusCode(4001), "application") })
+							synctest.Wait()
+						}
+						if order == "close-first" {
+							closeIt()
+						}
+						p.send(ref.Frame{Fin: true, Opcode: ref.OpClose, Payload: ref.ClosePayload(peerCode, "peer")})
+						synctest.Wait()
+						if order == "peer-first" {
+							closeIt()
+						}
+						e.sleep(hold)
+						lc.End.SetInBudget(-1) // the peer reads again
+						if !within(cd, 30*time.Second) || !within(rd, 30*time.Second) || !within(wd, 30*time.Second) {
+							msg = "Close, Read or Write did not return within 30 s of the transport moving again"
+							return
+						}
+						lc.C.CloseNow()
+						p.waitEOF(30 * time.Second)
+						out, _ := p.snapshot()
+						var closes [][]byte
+						for _, f := range out {
+							if f.Opcode == ref.OpClose {
+								closes = append(closes, f.Payload)
+							}
+						}
+						app, echo := ref.ClosePayload(4001, "application"), ref.ClosePayload(peerCode, "peer")
+						switch {
+						case len(closes) == 0:
+							msg = fmt.Sprintf("no Close frame was sent: neither the application's Close(4001) nor the echo of the peer's Close frame (%d), both of which were waiting for a Write held up for %v", peerCode, hold)
+						case len(closes) > 1:
+							msg = fmt.Sprintf("%d Close frames were sent", len(closes))
+						case !bytes.Equal(closes[0], app) && !bytes.Equal(closes[0], echo):
+							msg = fmt.Sprintf("the Close frame on the wire carries %x: neither what the application asked for nor the echo of the peer's", closes[0])
+						}
+					})
+					rec.Case(true, fmt.Sprintf("closequeued|%+v", c), "Close-queued-behind-a-held-up-Write-while-the-peer's-Close-frame-arrives")
+					if msg != "" {
+						failCase(t, "C06", c, "%s", msg)
+					}
+				}
+			}
+		}
+	}
+}
